@@ -1345,6 +1345,14 @@ void CoreSMTSolver::popBacktrackPoint()
     assert( isOK( ) );
 }
 
+void CoreSMTSolver::restoreOK()
+{
+    ok = true;
+    conflict_frame = 0;
+    // The solver is no longer in a refuted state: a stored refutation belongs to assertions that are gone
+    if (logsResolutionProof()) { resolutionProof->resetEmptyClauseDerivation(); }
+}
+
 bool CoreSMTSolver::okContinue() const
 {
     return not stopped() and not globallyStopped();
